@@ -99,17 +99,29 @@ def _predictive(rng, n_out=None, sbml=False):
         m.set_dosing_regimen(dose=2.0, start=0.3, duration=0.2, period=1.0,
                              num=int(rng.integers(1, 4)))
         n_out = int(rng.integers(1, 3))
-        m.set_outputs(['central.drug_concentration',
-                       'central.drug_amount'][:n_out])
+        outs_arg = None
+        if rng.random() < 0.5:
+            m.set_outputs(['central.drug_concentration',
+                           'central.drug_amount'][:n_out])
+        else:
+            # the outputs are named when the predictive model is created
+            outs_arg = ['central.drug_amount',
+                        'central.drug_concentration'][:n_out]
     else:
         n_out = n_out or int(rng.integers(1, 4))
         m = toys.ToyMulti(n_out)
+        outs_arg = None
     ems = [EMS[int(rng.integers(4))] for _ in range(n_out)]
     if rng.random() < 0.25:
         # the user's model may have its sensitivities switched on (e.g.
         # after a gradient-based inference): sampling needs the outputs only
         m.enable_sensitivities(True)
-    pm = chi.PredictiveModel(m, [getattr(chi, e)() for e in ems])
+    if outs_arg is not None:
+        pm = chi.PredictiveModel(m, [getattr(chi, e)() for e in ems],
+                                 outputs=outs_arg)
+        m.set_outputs(outs_arg)         # the harness's reference model
+    else:
+        pm = chi.PredictiveModel(m, [getattr(chi, e)() for e in ems])
     m.enable_sensitivities(False)       # the harness's reference model
     n_mech = m.n_parameters()
     if sbml:
@@ -719,7 +731,135 @@ def covariate_rows_case(ctx, rng, idx):
             return
 
 
+def regimen_rows_case(ctx, rng, idx):
+    """tables with dose events (include_regimen) of all five predictive
+    models over a dosed PK model: the measurement rows are those of the call
+    without dose events, the dose rows are exactly the events of the regimen
+    up to the last requested time (for every sample ID where the model
+    documents per-sample dose rows, once otherwise), and nothing else is
+    added; n_samples=None is one sample"""
+    from chi.library import ModelLibrary
+    from harness.oracle import regimen as R
+    kind = ['individual', 'population', 'prior', 'posterior', 'pam'][idx % 5]
+    m = ModelLibrary().one_compartment_pk_model()
+    m.set_administration('central', direct=bool(rng.integers(2)))
+    n_out = int(rng.integers(1, 3))
+    m.set_outputs(['central.drug_concentration',
+                   'central.drug_amount'][:n_out])
+    ems = [EMS[int(rng.integers(4))] for _ in range(n_out)]
+    pm = chi.PredictiveModel(m, [getattr(chi, e)() for e in ems])
+    dose = float(rng.uniform(0.5, 3))
+    start = float(rng.uniform(0, 2))
+    duration = float(rng.uniform(0.05, 0.3))
+    period = [None, float(rng.uniform(0.5, 1.5))][int(rng.integers(2))]
+    num = None if period is None else [None, int(rng.integers(1, 4))][
+        int(rng.integers(2))]
+    times = rng.permutation(np.array([0.4, 0.9, 1.3, 2.2, 3.1, 4.5]))[
+        :int(rng.integers(1, 5))]
+    if rng.random() < 0.2:
+        times[0] = start            # an event exactly at the last / a time
+    t_end = float(np.max(times))
+    ev = R.events(dose, start, duration, period, num, t_end)
+    n_mech = m.n_parameters()
+    x = np.concatenate([rng.uniform(0.5, 1.5, n_mech)] + [
+        rng.uniform(0.1, 0.4, D.ERROR_MODELS[e][0]) for e in ems])
+    names = pm.get_parameter_names()
+    n = int(rng.integers(1, 5))
+    seed = int(rng.integers(1, 2 ** 31))
+    feats = {'family': 'regimen_rows', 'model': kind, 'n_samples': n,
+             'regimen': {'dose': dose, 'start': start, 'duration': duration,
+                         'period': period, 'num': num}, 'events': len(ev)}
+    ctx.case(('regimen_rows', kind, min(len(ev), 3), period is None,
+              num is None), True, sample=dict(feats, times=times))
+    try:
+        if kind == 'individual':
+            model = pm
+            call = lambda **k: pm.sample(x, times, seed=seed, **k)  # noqa
+            per_sample = True
+        elif kind == 'population':
+            pop = chi.ComposedPopulationModel([
+                chi.LogNormalModel(n_dim=1),
+                chi.PooledModel(n_dim=len(names) - 1)])
+            pop.set_dim_names(names)
+            model = chi.PopulationPredictiveModel(pm, pop)
+            top = np.concatenate([[float(np.log(x[0])), 0.1], x[1:]])
+            call = lambda **k: model.sample(top, times, seed=seed, **k)  # noqa
+            per_sample = True
+        elif kind == 'prior':
+            model = chi.PriorPredictiveModel(pm, pints.ComposedLogPrior(*[
+                pints.LogNormalLogPrior(float(np.log(v)), 0.05) for v in x]))
+            call = lambda **k: model.sample(times, seed=seed, **k)  # noqa
+            per_sample = False
+        else:
+            ds = _posterior_dataset(rng, names, 2, 5, ['a', 'b'])
+            model = chi.PosteriorPredictiveModel(pm, ds)
+            if kind == 'pam':
+                model = chi.PAMPredictiveModel(
+                    [model, chi.PosteriorPredictiveModel(pm, ds + 0.01)],
+                    [0.5, 0.5])
+            call = lambda **k: model.sample(  # noqa
+                times, individual='a', seed=seed, **k)
+            per_sample = False
+        model.set_dosing_regimen(dose, start, duration, period, num)
+        plain = call(n_samples=n)
+        plain2 = call(n_samples=n, include_regimen=False)
+        full = call(n_samples=n, include_regimen=True)
+        one_default = call()
+        one = call(n_samples=1)
+    except Exception as e:      # noqa
+        ctx.violation_exc('sample_raises', e, {'case': feats}, feats)
+        return
+    ctx.count('regimen_tables_checked')
+
+    def meas(df):
+        d = df[df['Observable'].notna()]
+        return [(int(i_), float(t_), str(o_), float(v_)) for i_, t_, o_, v_
+                in zip(d['ID'], d['Time'], d['Observable'], d['Value'])]
+
+    prob = []
+    if meas(plain) != meas(full) or meas(plain) != meas(plain2):
+        prob.append('measurement rows differ between the calls with and '
+                    'without dose events')
+    if meas(one_default) != meas(one):
+        prob.append('n_samples=None is not one sample')
+    for tag, df in (('default', plain), ('include_regimen=False', plain2)):
+        if 'Dose' in df.columns and df['Dose'].notna().any():
+            prob.append('dose rows although not requested (%s)' % tag)
+    drows = full[full['Dose'].notna()] if 'Dose' in full.columns else \
+        full.iloc[:0]
+    want = sorted((s_, d_, a_) for s_, d_, a_ in ev)
+
+    def evs(rows):
+        return sorted((float(t_), float(d_), float(a_)) for t_, d_, a_ in zip(
+            rows['Time'], rows['Duration'], rows['Dose']))
+    if len(ev) == 0:
+        if len(drows):
+            prob.append('%d dose rows, none scheduled up to the last time'
+                        % len(drows))
+    elif per_sample:
+        for i in range(1, n + 1):
+            got = evs(drows[drows['ID'] == i])
+            if len(got) != len(want) or not np.allclose(got, want,
+                                                        rtol=1e-12):
+                prob.append('dose rows of ID %d: %s, scheduled %s' % (
+                    i, got[:4], want[:4]))
+                break
+        if len(drows) != n * len(want):
+            prob.append('%d dose rows for %d samples x %d events' % (
+                len(drows), n, len(want)))
+    else:
+        got = evs(drows)
+        if len(got) != len(want) or not np.allclose(got, want, rtol=1e-12):
+            prob.append('dose rows %s, scheduled %s' % (got[:4], want[:4]))
+    if len(full) != len(meas(full)) + len(drows):
+        prob.append('rows that are neither measurements nor dose events')
+    if prob:
+        ctx.violation('table_dose_rows', 'dose_rows:' + kind,
+                      {'problems': prob, 'case': feats}, feats)
+
+
 FAMILIES = [
+    Family('regimen_rows', regimen_rows_case, quick=60, thorough=600),
     Family('individual', individual_case, quick=48, thorough=600),
     Family('population', population_case, quick=160, thorough=3000),
     Family('posterior', posterior_case, quick=120, thorough=2000),
